@@ -110,17 +110,22 @@ RECURSIVE BoolChain(_, _, _, _, _)
 
 \* keep s[i] where p[i] is true (by need: a bad element that is filtered out does not matter);
 \* an element whose predicate is bad stays, as that bad value
+\* an element with a bad VALUE that the predicate (not looking at it) rejects: whether computing that value
+\* was attempted is not fixed by the properties - the event is out of scope (strict undef)
 FilterFrom(s, p, i) ==
   IF i > Len(s) THEN <<>>
   ELSE LET rest == FilterFrom(s, p, i + 1) IN
        IF StrictBad(s[i]) THEN <<s[i]>> \o rest
        ELSE IF Bad(p[i]) THEN <<Strict(p[i])>> \o rest
-       ELSE IF Truth(p[i]) THEN <<s[i]>> \o rest ELSE rest
+       ELSE IF Truth(p[i]) THEN <<s[i]>> \o rest
+       ELSE IF Bad(s[i]) THEN <<Strict(Undef("bad_value_filtered_out"))>> \o rest
+       ELSE rest
 
-\* concatenate a sequence of seq values; a bad inner sequence stays as one bad element
+\* concatenate a sequence of seq values; a bad inner sequence stays as one bad element - a STRICT one: how many
+\* elements it would have contributed is undecided, so no later step can ignore it
 FlattenFrom(s, i) ==
   IF i > Len(s) THEN <<>>
-  ELSE IF Bad(s[i]) THEN <<s[i]>> \o FlattenFrom(s, i + 1)
+  ELSE IF Bad(s[i]) THEN <<Strict(s[i])>> \o FlattenFrom(s, i + 1)
   ELSE s[i].v \o FlattenFrom(s, i + 1)
 
 \* Sum / Min / Max over good numeric elements, i from 2
@@ -149,6 +154,10 @@ BoolChain(isAnd, ch, i, env, ev) ==
   ELSE IF ~isAnd /\ Truth(v) THEN BoolV(TRUE)
   ELSE BoolChain(isAnd, ch, i + 1, env, ev)
 
+\* a parameter bound to a bad value: if the body looks at it the bad value comes out; if it does not, whether
+\* the value was ever computed is not fixed by the properties (a translator may evaluate eagerly or by need)
+ByNeed(x, r) == IF Bad(x) /\ ~Bad(r) THEN Undef("bad_value_never_used") ELSE r
+
 Denote(q, env, ev) ==
   CASE q.k = "DS" -> SeqV(<<EvV>>)
     [] q.k = "Var" -> Lookup(env, q.a)
@@ -170,7 +179,7 @@ Denote(q, env, ev) ==
          IF Bad(s) THEN s
          \* parameters are bound by need: a bad element only matters if the body uses it
          ELSE SeqV([i \in 1..Len(s.v) |-> IF StrictBad(s.v[i]) THEN s.v[i]
-                                            ELSE Denote(q.ch[2], Bind(env, q.a, s.v[i]), ev)])
+                                            ELSE ByNeed(s.v[i], Denote(q.ch[2], Bind(env, q.a, s.v[i]), ev))])
     [] q.k = "Where" ->
          LET s == Denote(q.ch[1], env, ev) IN
          IF Bad(s) THEN s
@@ -181,7 +190,7 @@ Denote(q, env, ev) ==
          LET s == Denote(q.ch[1], env, ev) IN
          IF Bad(s) THEN s
          ELSE SeqV(FlattenFrom([i \in 1..Len(s.v) |-> IF StrictBad(s.v[i]) THEN s.v[i]
-                                                        ELSE Denote(q.ch[2], Bind(env, q.a, s.v[i]), ev)], 1))
+                                                        ELSE ByNeed(s.v[i], Denote(q.ch[2], Bind(env, q.a, s.v[i]), ev))], 1))
     [] q.k = "First" ->
          LET s == Denote(q.ch[1], env, ev) IN
          IF Bad(s) THEN s
@@ -249,7 +258,7 @@ Denote(q, env, ev) ==
          LET x == Denote(q.ch[1], env, ev) IN
          IF Bad(x) THEN x ELSE x.v[CHOOSE i \in DOMAIN x.keys : x.keys[i] = q.a]
     \* a lambda applied on the spot; the argument is bound by need like every other parameter
-    [] q.k = "Let" -> Denote(q.ch[2], Bind(env, q.a, Denote(q.ch[1], env, ev)), ev)
+    [] q.k = "Let" -> LET x == Denote(q.ch[1], env, ev) IN ByNeed(x, Denote(q.ch[2], Bind(env, q.a, x), ev))
     [] q.k = "NonNull" -> LET r == Denote(q.ch[1], env, ev) IN IF Bad(r) THEN r ELSE BoolV(r.id # 0)
     [] q.k = "Math" -> MathApply(q.a, [i \in 1..q.n |-> Denote(q.ch[i], env, ev)])
     \* C10: enum Color of class A (Red = 0, Blue = 1; q.n = index of the value named in the query):
